@@ -47,7 +47,7 @@ RULE = ("unit single: full product start state x event (first level of the searc
 ASSUMPTIONS = [
     "scope: 6 (quick) / 8 (thorough) start fields on 1-3-dimensional meshes with <= 12 cells and one subregion (one "
     "periodic, one with custom labels and a permuted mapping), 1-3 components, float and complex data, coded masks "
-    "(fixed, asymmetric), programs of <= 2 (quick) / 3 (thorough) events out of 78 (58-78 enabled per start state)",
+    "(fixed, asymmetric), programs of <= 2 (quick) / 3 (thorough) events out of 79 (59-79 enabled per start state)",
     "cell-mapping events (sel, [subregion], [Region], pad, resample, rotate90, HDF5, VTK) use the library's own data "
     "path as the reference for where cells go (C07/C12/C10/C16 decide whether that path is right)",
     "constant-mode padding: only the original cells are compared (whether a new cell filled with a constant is valid "
@@ -318,6 +318,8 @@ def build_events():
     add("pad-wrap-axL", "map", lambda f, o: f.pad({_dims(f)[-1]: (1, 1)}, mode="wrap"))
     add("pad-edge-ax0", "map", lambda f, o: f.pad({_dims(f)[0]: (2, 0)}, mode="edge"))
     add("resample-plus1", "map", lambda f, o: f.resample(tuple(int(i) + (1 if j == 0 else 0) for j, i in enumerate(f.mesh.n))))
+    # to the resolution the field already has: still a NEW field (its validity is its own)
+    add("resample-same-n", "map", lambda f, o: f.resample(tuple(int(i) for i in f.mesh.n)))
     add("resample-double-last", "map",
         lambda f, o: f.resample(tuple(int(i) * (2 if j == len(f.mesh.n) - 1 else 1) for j, i in enumerate(f.mesh.n))),
         enabled=lambda f: int(np.prod(f.mesh.n)) <= 16)
